@@ -108,7 +108,7 @@ def factorGiveups (o : Oracle σ) (fuel n : Nat) (alg : Algo) (os : σ) : List N
 theorem factor_eq (o : Oracle σ) (fuel n : Nat) (alg : Algo) (os : σ) :
     factor o fuel n alg os =
       if n = 0 then .ok [0]
-      else if bits n > 510 then .failure
+      else if bits n > 500 then .failure
       else match factorRun o fuel n alg os with
         | .panic e => .panic e
         | .fuel => .fuel
